@@ -39,7 +39,9 @@
 (*             reader), ListCount, ListValues (all lines, file order),     *)
 (*             SymIsInt                                                    *)
 (*  pattern  : PatternRaises, PatternKind, PatternFirst, PatternNone,      *)
-(*             PatternWords                                                *)
+(*             PatternWords; PatternWords_KnownGroupZero instead when the  *)
+(*             words are exactly those of group 0 for group >= 1 (known    *)
+(*             finding X06-F1, LogFormat's variant "group0")               *)
 (***************************************************************************)
 EXTENDS LogFormat, TLC, TLCExt, Json, IOUtils
 
@@ -97,7 +99,11 @@ PatternClauses(e) ==
                              \cup SomeClause(e.kind # "str" \/ e.text = w.text, "PatternFirst")
              ELSE SomeClause(e.kind = "list" /\ e.words = <<>>, "PatternNone")
         ELSE SomeClause(e.kind = "list", "PatternKind")
-             \cup SomeClause(e.kind # "list" \/ e.words = PatAll("required", acc, e.group), "PatternWords")
+             \cup (IF e.kind # "list" \/ e.words = PatAll("required", acc, e.group) THEN {}
+                   \* the known shape X06-F1: exactly the words of group 0 although group >= 1 was asked for
+                   ELSE IF e.group >= 1 /\ e.words = PatAll("group0", acc, e.group)
+                        THEN {"PatternWords_KnownGroupZero"}
+                   ELSE {"PatternWords"})
 
 Clauses(e) ==
    CASE e.ev = "open" -> {}
